@@ -68,6 +68,8 @@ MissingR(chg, A, Q, frontier, seen, miss) ==
            nxt   == UNION {chg[c].deps : c \in viaQ}
        IN  MissingR(chg, A, Q, nxt, seen \cup fresh, miss \cup gone)
 Missing(chg, A, Q, hs) == MissingR(chg, A, Q, Q \cup hs, {}, {})
+(* the same walk started from the given hashes only (sync: what is needed to reach the peer's heads) *)
+MissingFrom(chg, A, Q, start) == MissingR(chg, A, Q, start, {}, {})
 
 (* remove_actor_branch_from: queued changes of actor a with seq >= s and   *)
 (* everything queued that transitively depends on them.                    *)
